@@ -17,7 +17,7 @@ from ..world import World, install_seams, remove_seams
 from ..rng import digest
 
 PROP = "C07"
-RUNS = {"quick": 60000, "thorough": 3000000}
+RUNS = {"quick": 60000, "thorough": 1500000}
 WALL = {"quick": 280, "thorough": 3500}
 BUDGET = 5_000_000
 RULE = ("one run = a generated document with injected record faults, delivered through a "
